@@ -5,7 +5,7 @@
 //        foreign thread (F); script = outcomes for the successive send calls on that connection:
 //        a<k> accept at most k bytes, w would-block; after the script every call is passed through
 //     -> X bytes=<received> content=<1|0> calls=<send calls until everything was delivered> p=<value|R|P per write> twice=<promises settled more than once>
-//   S <stall ms> <size>                   connection A asks for <size> bytes and does not read for <stall ms>;
+//   S <stall ms> <size>                   connection A asks for <size> bytes and does not read for <stall ms> after the kernel first refused bytes for it;
 //        connection B (same single worker) sends a request after a third of that time
 //     -> S b_answered=<1|0> b_latency_ok=<1|0> spin=<1 if more than 1000 send calls were made on A while stalled> a_content=<1|0> a_value=<1|0>
 #include <pistache/listener.h>
@@ -32,6 +32,7 @@ struct Script
     int fd      = -1; // only this descriptor is scripted / counted
     std::atomic<long> calls { 0 };
     std::atomic<bool> counting { true };
+    std::atomic<bool> eagain_seen { false }; // the kernel really refused bytes on the scripted descriptor
 } g_script;
 
 ssize_t scripted_send(int fd, const void* buf, size_t len, int flags)
@@ -53,7 +54,10 @@ ssize_t scripted_send(int fd, const void* buf, size_t len, int flags)
     }
     if (o > 0 && static_cast<size_t>(o) < len)
         len = static_cast<size_t>(o);
-    return ::send(fd, buf, len, flags | MSG_NOSIGNAL);
+    ssize_t r = ::send(fd, buf, len, flags | MSG_NOSIGNAL);
+    if (r < 0 && (errno == EAGAIN || errno == EWOULDBLOCK))
+        g_script.eagain_seen = true;
+    return r;
 }
 
 struct Results
@@ -150,6 +154,7 @@ static std::string handle(const std::string& line)
     g_script.fd       = -1;
     g_script.calls    = 0;
     g_script.counting = true;
+    g_script.eagain_seen = false;
 
     if (t[0] == "X")
     {
@@ -238,6 +243,10 @@ static std::string handle(const std::string& line)
     else
     {
         int stall = atoi(t[1].c_str());
+        // the stall begins when the kernel refuses bytes for A (building and queueing the data is
+        // ordinary work of the worker and is not what is measured)
+        for (int k = 0; k < 4000 && !g_script.eagain_seen; ++k)
+            std::this_thread::sleep_for(std::chrono::milliseconds(5));
         std::this_thread::sleep_for(std::chrono::milliseconds(stall / 3));
         long calls_before = g_script.calls.load();
         int b             = pv::connect_loopback(port);
